@@ -580,9 +580,19 @@ fn complain(msg: String) {
 	COMPLAINTS.lock().unwrap().push(msg);
 }
 
+/// a verdict of the node that builds the tree which contradicts what the property fixes
+static VERDICTS: std::sync::Mutex<Vec<(String, String)>> = std::sync::Mutex::new(Vec::new());
+
+fn complain_as(prop: &str, msg: String) {
+	VERDICTS.lock().unwrap().push((prop.to_string(), msg));
+}
+
 fn flush_complaints(out: &mut Out) {
 	for m in COMPLAINTS.lock().unwrap().drain(..) {
 		out.raw(&format!("#ORACLE-FAIL C03 a block that is valid by construction was refused by the node that builds the tree: {}", m));
+	}
+	for (p, m) in VERDICTS.lock().unwrap().drain(..) {
+		out.raw(&format!("#ORACLE-FAIL {} {}", p, m));
 	}
 }
 
@@ -1883,6 +1893,60 @@ impl Gen {
 	}
 }
 
+impl Gen {
+	/// A block on `parent` from ready-made transactions (so that the very same transactions can be
+	/// offered at another height); the builder chain's verdict decides whether it is recorded as
+	/// valid; `must_accept` is what the property fixes for it - a different verdict of the node is
+	/// reported as an oracle failure.
+	fn add_txs(&mut self, parent: usize, diff: u64, txs: &[grin_core::core::Transaction], label: &str, must_accept: Option<bool>) -> Option<usize> {
+		let b = self.kit.assemble(parent, diff, txs, 0).ok()?;
+		let h = b.header.height;
+		match self.kit.builder().process_block(b.clone(), grin_chain::Options::SKIP_POW) {
+			Ok(_) => {
+				if must_accept == Some(false) {
+					complain_as("C13", format!("a block that must be refused ({}) at height {} was accepted by the node", label, h));
+				}
+				let st = self.state_after(parent, &b);
+				let id = self.kit.record(b, parent, vec![], true);
+				self.states.insert(id, st);
+				self.valid.push(id);
+				self.stat(&format!("c13:accepted-by-builder:{}", label));
+				Some(id)
+			}
+			Err(e) => {
+				if must_accept == Some(true) {
+					complain_as("C13", format!("a block whose locks are all satisfied ({}) at height {} was refused by the node: {}", label, h, error_class(&e)));
+				}
+				let id = self.kit.record(b, parent, vec![format!("kind:{}", label)], false);
+				self.invalid.push(id);
+				self.stat(&format!("c13:rejected-by-builder:{}:{}", label, error_class(&e)));
+				Some(id)
+			}
+		}
+	}
+
+	/// build the transaction of `spec` again and again until its kernel sorts before (`first`) /
+	/// after every kernel of `others` (kernels are sorted by hash inside a block body)
+	fn tx_sorting(&mut self, spec: &TxSpec, others: &[grin_core::core::Transaction], first: bool) -> Option<grin_core::core::Transaction> {
+		for _ in 0..60 {
+			let tx = self.kit.build_tx(spec).ok()?;
+			let k = tx.kernels()[0].hash();
+			let ok = others.iter().all(|o| {
+				let ko = o.kernels()[0].hash();
+				if first {
+					k < ko
+				} else {
+					k > ko
+				}
+			});
+			if ok {
+				return Some(tx);
+			}
+		}
+		None
+	}
+}
+
 fn tx_desc(kit: &Kit, tx: &grin_core::core::Transaction) -> String {
 	let ins: Vec<grin_core::core::CommitWrapper> = tx.inputs().into();
 	let i: Vec<String> = ins.iter().map(|c| kit.by_commit.get(&c.commitment()).map(|x| format!("o{}", x)).unwrap_or("o?".into())).collect();
@@ -1992,6 +2056,133 @@ fn run_c13(out: &mut Out, rng: &mut Rng, work: &str) -> BTreeMap<String, u64> {
 			let avail: Vec<usize> = g.spendable(parent, h).into_iter().filter(|o| !g.kit.outs[*o].coinbase).collect();
 			if let Some(o) = avail.first() {
 				g.add_scripted(parent, 1, &[spend(*o, &g, KSpec::HeightLocked(3, lock))], label);
+			}
+		}
+	}
+	// ---- EVERY kernel / input of a block is checked, not the first in sort order: blocks with two
+	// and three height-locked kernels of which one is still locked (lock = h+1, h+10), the locked one
+	// sorting first / last (/ in the middle); HeightLocked + NRD + Plain; two NRD kernels of which one
+	// repeats an excess too early; two coinbase spends of which only the second / first input in
+	// sort order is immature. Each refused at height h in every order; the very same transactions
+	// are accepted in a block at the height where every lock is satisfied.
+	if trunk.len() > 13 {
+		let parent = trunk[10];
+		let h = 11u64;
+		let pl: Vec<usize> = g.spendable(parent, h).into_iter().filter(|o| !g.kit.outs[*o].coinbase).collect();
+		if pl.len() >= 3 {
+			for (locked_at, dist, up) in [(h + 1, "h+1", trunk[11]), (h + 10, "h+10", 0usize)] {
+				for locked_first in [true, false] {
+					let sat = match g.kit.build_tx(&spend(pl[0], &g, KSpec::HeightLocked(3, if locked_first { h } else { h - 1 }))) {
+						Ok(t) => t,
+						Err(_) => continue,
+					};
+					if let Some(lk) = g.tx_sorting(&spend(pl[1], &g, KSpec::HeightLocked(3, locked_at)), &[sat.clone()], locked_first) {
+						let order = if locked_first { "locked-kernel-sorts-first" } else { "locked-kernel-sorts-last" };
+						g.add_txs(parent, 1, &[sat.clone(), lk.clone()], &format!("multi:two-height-locked:{}:lock={}", order, dist), Some(false));
+						if up != 0 {
+							// one block higher both locks are satisfied: the same two transactions
+							g.add_txs(up, 1, &[sat.clone(), lk.clone()], &format!("multi:two-height-locked:{}:all-satisfied-one-block-higher", order), Some(true));
+						}
+					}
+				}
+			}
+			// three height-locked kernels, the locked one first / in the middle / last
+			for place in ["first", "middle", "last"] {
+				let a = g.kit.build_tx(&spend(pl[0], &g, KSpec::HeightLocked(3, h)));
+				let b = g.kit.build_tx(&spend(pl[1], &g, KSpec::HeightLocked(3, h - 2)));
+				if let (Ok(a), Ok(b)) = (a, b) {
+					let lk = match place {
+						"first" => g.tx_sorting(&spend(pl[2], &g, KSpec::HeightLocked(3, h + 1)), &[a.clone(), b.clone()], true),
+						"last" => g.tx_sorting(&spend(pl[2], &g, KSpec::HeightLocked(3, h + 1)), &[a.clone(), b.clone()], false),
+						_ => {
+							let (lo, hi) = if a.kernels()[0].hash() < b.kernels()[0].hash() { (a.clone(), b.clone()) } else { (b.clone(), a.clone()) };
+							let (klo, khi) = (lo.kernels()[0].hash(), hi.kernels()[0].hash());
+							let mut found = None;
+							for _ in 0..120 {
+								if let Ok(t) = g.kit.build_tx(&spend(pl[2], &g, KSpec::HeightLocked(3, h + 1))) {
+									let k = t.kernels()[0].hash();
+									if k > klo && k < khi {
+										found = Some(t);
+										break;
+									}
+								}
+							}
+							found
+						}
+					};
+					if let Some(lk) = lk {
+						g.add_txs(parent, 1, &[a.clone(), b.clone(), lk.clone()], &format!("multi:three-height-locked:locked-kernel-sorts-{}", place), Some(false));
+						g.add_txs(trunk[11], 1, &[a, b, lk], &format!("multi:three-height-locked:locked-kernel-sorts-{}:all-satisfied-one-block-higher", place), Some(true));
+					}
+				}
+			}
+			// HeightLocked (still locked) + NRD (a fresh excess) + Plain
+			for locked_first in [true, false] {
+				let n1 = g.kit.build_tx(&spend(pl[0], &g, KSpec::Nrd(3, 2, 2)));
+				let p1 = g.kit.build_tx(&spend(pl[1], &g, KSpec::Plain(3)));
+				if let (Ok(n1), Ok(p1)) = (n1, p1) {
+					if let Some(lk) = g.tx_sorting(&spend(pl[2], &g, KSpec::HeightLocked(3, h + 1)), &[n1.clone(), p1.clone()], locked_first) {
+						let order = if locked_first { "locked-kernel-sorts-first" } else { "locked-kernel-sorts-last" };
+						g.add_txs(parent, 1, &[n1.clone(), p1.clone(), lk.clone()], &format!("multi:height-locked+nrd+plain:{}", order), Some(false));
+						g.add_txs(trunk[11], 1, &[n1, p1, lk], &format!("multi:height-locked+nrd+plain:{}:all-satisfied-one-block-higher", order), Some(true));
+					}
+				}
+			}
+		}
+		// two NRD kernels: a fresh excess and slot 0 again (it occurred at height 11 with relative
+		// height 3): at height 12 the second is two blocks after - refused whichever sorts first; at 14 accepted
+		let pl12: Vec<usize> = g.spendable(trunk[11], 12).into_iter().filter(|o| !g.kit.outs[*o].coinbase).collect();
+		if pl12.len() >= 2 {
+			for early_first in [true, false] {
+				if let Ok(fresh) = g.kit.build_tx(&spend(pl12[0], &g, KSpec::Nrd(3, 1, 1))) {
+					if let Some(dup) = g.tx_sorting(&spend(pl12[1], &g, KSpec::Nrd(3, 3, 0)), &[fresh.clone()], early_first) {
+						let order = if early_first { "too-recent-kernel-sorts-first" } else { "too-recent-kernel-sorts-last" };
+						g.add_txs(trunk[11], 1, &[fresh.clone(), dup.clone()], &format!("multi:two-nrd:{}:distance-1-of-3", order), Some(false));
+						g.add_txs(trunk[13], 1, &[fresh, dup], &format!("multi:two-nrd:{}:distance-3-of-3", order), Some(true));
+					}
+				}
+			}
+		}
+		// two NRD kernels sharing ONE excess inside a block (`verify_no_nrd_duplicates`): refused whatever
+		// their relative heights and although the excess never occurred before; an NRD kernel and a
+		// PLAIN kernel sharing an excess: the rule is about NRD kernels only (observed, not fixed)
+		if pl12.len() >= 2 {
+			for (r1, r2) in [(1u64, 1u64), (1, 2)] {
+				let a = g.kit.build_tx(&spend(pl12[0], &g, KSpec::Nrd(3, r1, 3)));
+				let b = g.kit.build_tx(&spend(pl12[1], &g, KSpec::Nrd(3, r2, 3)));
+				if let (Ok(a), Ok(b)) = (a, b) {
+					g.add_txs(trunk[11], 1, &[a, b], &format!("multi:two-nrd-sharing-an-excess:relative-heights-{}-{}", r1, r2), Some(false));
+				}
+			}
+			let a = g.kit.build_tx(&spend(pl12[0], &g, KSpec::Nrd(3, 1, 3)));
+			let b = g.kit.build_tx(&spend(pl12[1], &g, KSpec::PlainSlot(3, 3)));
+			if let (Ok(a), Ok(b)) = (a, b) {
+				g.add_txs(trunk[11], 1, &[a, b], "multi:nrd-and-plain-kernel-sharing-an-excess", None);
+			}
+		}
+		// two coinbase spends, one matured, one not: the immature input sorting second / first
+		{
+			let st = g.states[&parent].clone();
+			let mature: Vec<usize> = st.utxo.iter().filter(|(_, (c, cb))| *cb && h >= *c + MATURITY).map(|(o, _)| *o).collect();
+			let immature: Vec<usize> = st.utxo.iter().filter(|(_, (c, cb))| *cb && h < *c + MATURITY && 13 >= *c + MATURITY).map(|(o, _)| *o).collect();
+			// (the node that builds the trunk spends the first matured coinbase it finds: take the last)
+			let still: Vec<usize> = mature.iter().cloned().filter(|o| g.states[&trunk[12]].utxo.contains_key(o)).collect();
+			use grin_core::core::CommitWrapper;
+			let key = |g: &Gen, o: usize| CommitWrapper::from(g.kit.outs[o].commit).hash();
+			for immature_second in [true, false] {
+				let pair = still.iter().rev().flat_map(|m| immature.iter().map(move |i| (*m, *i))).find(|(m, i)| (key(&g, *m) < key(&g, *i)) == immature_second);
+				if let Some((m, i)) = pair {
+					let order = if immature_second { "immature-input-sorts-second" } else { "immature-input-sorts-first" };
+					let v = g.kit.outs[m].value + g.kit.outs[i].value;
+					let spec = TxSpec { inputs: vec![m, i], outputs: vec![(v - 3, None)], kernel: KSpec::Plain(3) };
+					if let Ok(tx) = g.kit.build_tx(&spec) {
+						g.add_txs(parent, 1, &[tx.clone()], &format!("multi:two-coinbase-spends:{}", order), Some(false));
+						// at height 13 both have matured
+						g.add_txs(trunk[12], 1, &[tx], &format!("multi:two-coinbase-spends:{}:both-matured-two-blocks-higher", order), Some(true));
+					}
+				} else {
+					g.stat(&format!("c13:multi:two-coinbase-spends:no-pair-for-immature-{}", if immature_second { "second" } else { "first" }));
+				}
 			}
 		}
 	}
@@ -3449,7 +3640,7 @@ fn run_fullval(out: &mut Out, rng: &mut Rng, work: &str, thorough: bool) -> BTre
 			let tx = kit.build_tx(&TxSpec { inputs: vec![0], outputs: outs, kernel: KSpec::Plain(10) }).unwrap();
 			let b = kit.raw_block(&genesis.header, &[tx]).unwrap();
 			fv_case(out, &mut cx, &kit, &builder, &genesis, "U", FvKind::Honest, &[b.clone()], None, None, None, false);
-			for oi in [0usize, 1, pbatch - 2, pbatch - 1, total - 1] {
+			for oi in [0usize, 1, pbatch - 2, pbatch - 1, pbatch, total - 1] {
 				if oi >= b.body.outputs.len() {
 					continue;
 				}
